@@ -546,7 +546,8 @@ def _lazy_genexp(self, st, node):
         return None
     s, _, src = outs[0]
     o = s.obj(src)
-    if not (o.kind in ("list", "iterator") and o.items is None and "@seq" in o.fields):
+    lazy_source = o.kind == "iterator" and o.items is None and ("@op" in o.fields or "@seq" in o.fields)
+    if not ((o.kind == "list" and o.items is None and "@seq" in o.fields) or lazy_source):
         return None
     lams = getattr(node, "_lazy_lambdas", None)
     if lams is None:
